@@ -187,6 +187,34 @@ def k1_queries(num, tier, only=None):
     return qs
 
 
+# Range forms: the two-copy query of C18 (range call vs the same singles) also carries the obligations that other
+# properties place on range forms; their checks run the SAME query (same solver input, shared through the verdict cache) and read
+# the clause ids that concern them.
+RANGE_ASPECTS = {
+    1: (('find_range', 'find_range_fill', 'insert_range'), (18003, 18004, 18005, 18006, 18010), None),
+    3: (('insert_range', 'erase_range'), (18009,), None),
+    4: (('find_range', 'find_range_fill'), (18004, 18006, 18011), plan.TTL_CONTS),
+    5: (('find_range', 'find_range_fill', 'insert_range'), (18004, 18006, 18011), plan.TTL_CONTS),
+    9: (('insert_range',), (18001, 18009, 18010, 18011), None),
+    10: (('find_range', 'find_range_fill', 'insert_range'), (18012,), ('lru', 'tlru', 'utlru')),
+    11: (('find_range', 'find_range_fill', 'insert_range'), (18013,), ('lfu', 'lfuda')),
+    12: (('find_range', 'find_range_fill', 'insert_range', 'erase_range'), (18012,), ('fifo',)),
+    13: (('find_range', 'find_range_fill', 'insert_range'), (18012,), ('mru',)),
+}
+
+
+def range_aspect_queries(num, tier, only=None):
+    if num not in RANGE_ASPECTS:
+        return []
+    rms, ids, conts = RANGE_ASPECTS[num]
+    qs = []
+    for q in k5_queries(18, tier, only):
+        if q.meta['rmethod'] in rms and (conts is None or q.meta['cont'] in conts):
+            q.meta['aspect_ids'] = ids
+            qs.append(q)
+    return qs
+
+
 def k5_queries(num, tier, only=None):
     qs = []
     heavy = ('lfu', 'lfuda', 'utmap', 'utset', 'tlru', 'utlru')
@@ -284,9 +312,11 @@ def interpret(ev, num, queries, kind):
             p = q.meta['prop']
             if p == 99 or q.meta.get('kf_probe'):
                 continue
-            ev.add_query(q, 'invariant' if p == 0 else 'property')
+            ev.add_query(q, 'invariant' if p == 0 else ('range form (C18 query, aspect ids %s)' % (q.meta['aspect_ids'],) if q.meta.get('aspect_ids') else 'property'))
             r = q.result
             ids = prop_ids(r, p)
+            if q.meta.get('aspect_ids'):
+                ids = [k for k in ids if k in q.meta['aspect_ids']]
             if r.status == 'pass':
                 ev.obligations += max(1, len(ids))
                 if wit_ok:
@@ -305,7 +335,7 @@ def interpret(ev, num, queries, kind):
     return failures
 
 
-def lift_and_replay(ev, num, q):
+def lift_and_replay(ev, num, q, clause_prop=None):
     """K1 counterexample -> public-API history -> replay on the real build.  Returns (reproduced, replay_path, info)"""
     m = q.meta
     vals = q.result.hist
@@ -322,10 +352,11 @@ def lift_and_replay(ev, num, q):
     else:
         # an invariant failure violates no clause by itself: let the replay search short continuations on the real build
         lines = core.state_lines(vals, 2 if m['kind'] == 'k2x2' else 1, explore=(2 if m.get('prop') == 0 else 0))
+    cp = clause_prop if clause_prop is not None else num
     variant = 'san' if num == 8 else 'plain'
     ratio = q.defines.get('T_RATIO4')
     counted = ' counted=1' if q.defines.get('VAL_COUNTED') else ''
-    hdr = '# cont=%s n=%d ts=%s prop=%d variant=%s%s%s' % (m['cont'], m['n'], m['ts'], num, variant,
+    hdr = '# cont=%s n=%d ts=%s prop=%d variant=%s%s%s' % (m['cont'], m['n'], m['ts'], cp, variant,
                                                             (' ratio4=%s' % ratio) if ratio is not None else '', counted)
     body = '\n'.join(lines) + '\n'
     h = hashlib.sha256((hdr + body).encode()).hexdigest()[:12]
@@ -333,7 +364,9 @@ def lift_and_replay(ev, num, q):
     path = os.path.join(ROOT, 'replays', 'C%02d-%s-%s.hist' % (num, m['cont'], h))
     open(path, 'w').write(hdr + '\n' + body)
     res = replay_history(path)
-    fails = [f for f in res['fails'] if f[0] // 1000 == num]
+    fails = [f for f in res['fails'] if f[0] // 1000 == cp]
+    if q.meta.get('aspect_ids'):
+        fails = [f for f in fails if f[0] in q.meta['aspect_ids']]
     reproduced = bool(fails) or (num == 8 and res.get('ub', False))
     info = {'history': path, 'query': q.name, 'replay_rc': res['rc'], 'clause_failures': fails[:6], 'reproduced': reproduced,
             'tail': res['out'][-600:]}
@@ -533,7 +566,7 @@ def run_property(num, tier, seed, only=None):
                             'allocation failure; clocks beyond 2^40 ticks or decreasing; lfuda ratios other than 1/2'}
     pid = ev.pid
     known, _fixed = load_known()
-    qs = k2_queries(num, tier, only) + k1_queries(num, tier, only) + k5_queries(num, tier, only) + counted_queries(num, tier, only)
+    qs = k2_queries(num, tier, only) + k1_queries(num, tier, only) + k5_queries(num, tier, only) + counted_queries(num, tier, only) + range_aspect_queries(num, tier, only)
     sys.stderr.write('%s %s: %d queries\n' % (pid, tier, len(qs)))
     validate_translation(ev, sorted({q.meta['cont'] for q in qs}), seed, tier)
     core.run_all(qs)
@@ -590,7 +623,7 @@ def finish(ev, num, tier, qs, known, extra_violations=()):
             ok, path, info = spread_replay(ev, num, m['n'])
             what = 'two different draws remove the same victim'
         else:
-            ok, path, info = lift_and_replay(ev, num, q)
+            ok, path, info = lift_and_replay(ev, num, q, clause_prop=m['prop'])
             what = 'clauses %s' % (info.get('clause_failures', [])[:3] if isinstance(info, dict) else info)
         if ok:
             violations.append((path, '%s: %s; reproduced on the real build' % (q.name, what)))
